@@ -15,7 +15,7 @@ from .. import cover, itpspec, ref
 
 LEVEL = 'exploration'
 JOBS = {'quick': 2, 'thorough': 16}
-REQUIRED_MONITORS = ('tokens_original_vs_written', 'second_round_trip', 'topology_original_vs_written', 'written_onto_source')
+REQUIRED_MONITORS = ('tokens_original_vs_written', 'second_round_trip', 'topology_original_vs_written', 'written_onto_source', 'written_through_copy')
 REQUIRED_CLASSES = ('shipped', 'repeated-section', 'trailing:empty', 'trailing:multiple', 'trailing:hash', 'trailing:multiple-last-empty',
                     'header-text', 'decorated', 'no-final-newline', 'shipped-with-repeated-section')
 RULE = ('all shipped topologies + generated topology texts (section order, repeated section names, trailing comment '
@@ -153,6 +153,17 @@ def roundtrip(ctx, path, label, truth=None, classes=()):
         d = diff_tokens(written, inplace)
         if d:
             ctx.violation(f'write-onto-source-loses:{d[0]}', f'{label}: {d[1]}', witness=w)
+    # written through a copy of the file object: same file as written directly
+    viac = os.path.join(_tmp['dir'], f'copy_{os.getpid()}.itp')
+    try:
+        ItpFile(path).copy().write(viac)
+        through_copy = ref.ref_itp_tokens(viac)
+        ctx.monitor('written_through_copy')
+        d = diff_tokens(written, through_copy)
+        if d:
+            ctx.violation(f'write-through-copy-loses:{d[0]}', f'{label}: {d[1]}', witness=w)
+    except Exception as exc:  # noqa
+        ctx.violation(f'write-through-copy-raises:{type(exc).__name__}', str(exc)[:200], witness=w)
     # second round trip
     try:
         ItpFile(out1).write(out2)
